@@ -804,7 +804,7 @@ func sample(c Case) any {
 
 var spec = kit.Spec[Case]{
 	Prop: "C45", Name: "main",
-	Rule: "autoconf client in a synctest bubble with an in-memory RoundTripper: 0..3 successful refreshes (new payload / identical payload / 304), then one more refresh observed with inotify; every crash state of the observed write protocol (every byte truncation of each file written in place with later files in their old state, temp-file truncations and atomic rename steps, removals) is materialised and a fresh client's GetCached() must return the new or the newest earlier fetched config, the fallback only when no valid autoconf-*.json exists; non-trivial = at least one earlier cached version exists and strict truncations were checked",
+	Rule:  "autoconf client in a synctest bubble with an in-memory RoundTripper: 0..3 successful refreshes (new payload / identical payload / 304), then one more refresh observed with inotify; every crash state of the observed write protocol (every byte truncation of each file written in place with later files in their old state, temp-file truncations and atomic rename steps, removals) is materialised and a fresh client's GetCached() must return the new or the newest earlier fetched config, the fallback only when no valid autoconf-*.json exists; non-trivial = at least one earlier cached version exists and strict truncations were checked",
 	Quick: 50, Thorough: 200,
 	Gen: gen, Run: run, Sample: sample,
 }
